@@ -143,22 +143,42 @@ def has_merge_anywhere(node, seen=None):
 
 
 def selftest():
+    """hand-built node graphs (the composer is code under test and must not be needed by an oracle self-test)"""
     import yaml
-    C = lambda s: yaml.compose(s, Loader=yaml.BaseLoader.__mro__[0] if False else yaml.SafeLoader)
-    assert evaluate(C('{a: 1, b: 2, a: 3}')) == {'a': 3, 'b': 2}
-    assert list(evaluate(C('{b: 1, a: 2}'))) == ['b', 'a']
-    assert evaluate(C('- &m {a: 1, b: 2}\n- {<<: *m, b: 3}\n')) == [{'a': 1, 'b': 2}, {'a': 1, 'b': 3}]
-    assert evaluate(C('- &m {a: 1, b: 2}\n- &n {b: 5, c: 6}\n- {<<: [*m, *n]}\n- {<<: [*n, *m]}\n'))[2:] == [{'a': 1, 'b': 2, 'c': 6}, {'a': 1, 'b': 5, 'c': 6}]
-    assert evaluate(C('- &m {a: 1}\n- &n {a: 2}\n- {<<: *m, <<: *n}\n'))[2] == {'a': 2}
-    assert evaluate(C('- &m {a: 1}\n- &n {<<: *m, b: 2}\n- {<<: *n, c: 3}\n'))[2] == {'a': 1, 'b': 2, 'c': 3}
-    assert evaluate(C("{'<<': 1, a: 2}")) == {'<<': 1, 'a': 2}
-    assert evaluate(C('&a {<<: *a, k: 1}')) == {'k': 1}
-    for bad in ('{<<: x}', '{<<: [x]}', '{[a]: 1}', '!!set [a]', '!!omap {a: 1}', '!!omap [a]', '!!omap [{a: 1, b: 2}]', '!!pairs [{}]', '- &m {[x]: 1}\n- {<<: *m}\n'):
+
+    def S(v, t='str'):
+        return yaml.ScalarNode(T + t, str(v))
+
+    def I(v):
+        return S(v, 'int')
+
+    def M(*pairs, tag='map'):
+        return yaml.MappingNode(T + tag, [(k if isinstance(k, yaml.Node) else S(k), v) for k, v in pairs])
+
+    def Q(*items, tag='seq'):
+        return yaml.SequenceNode(T + tag, list(items))
+    MERGE = lambda: S('<<', 'merge')
+    assert evaluate(M(('a', I(1)), ('b', I(2)), ('a', I(3)))) == {'a': 3, 'b': 2}
+    assert list(evaluate(M(('b', I(1)), ('a', I(2))))) == ['b', 'a']
+    m = M(('a', I(1)), ('b', I(2)))
+    n = M(('b', I(5)), ('c', I(6)))
+    assert evaluate(Q(m, M((MERGE(), m), ('b', I(3))))) == [{'a': 1, 'b': 2}, {'a': 1, 'b': 3}]
+    assert evaluate(Q(M((MERGE(), Q(m, n))), M((MERGE(), Q(n, m))))) == [{'a': 1, 'b': 2, 'c': 6}, {'a': 1, 'b': 5, 'c': 6}]
+    assert evaluate(M((MERGE(), M(('a', I(1)))), (MERGE(), M(('a', I(2)))))) == {'a': 2}
+    n2 = M((MERGE(), m), ('b', I(9)))
+    assert evaluate(M((MERGE(), n2), ('c', I(3)))) == {'a': 1, 'b': 9, 'c': 3}
+    assert evaluate(M((S('<<'), I(1)), ('a', I(2)))) == {'<<': 1, 'a': 2}
+    selfm = M(('k', I(1)))
+    selfm.value.insert(0, (MERGE(), selfm))
+    assert evaluate(selfm) == {'k': 1}
+    for bad in (M((MERGE(), S('x'))), M((MERGE(), Q(S('x')))), M((Q(S('a')), I(1))), Q(S('a'), tag='set'), M(('a', I(1)), tag='omap'), Q(S('a'), tag='omap'),
+                Q(M(('a', I(1)), ('b', I(2))), tag='omap'), Q(M(), tag='pairs'), Q(M((MERGE(), M((Q(S('x')), I(1))))))):
         try:
-            evaluate(C(bad))
+            evaluate(bad)
         except Reject:
             continue
-        raise AssertionError('O-merge accepted %r' % bad)
-    assert evaluate(C('!!set {a, b}')) == {'a', 'b'} and evaluate(C('!!omap [{a: 1}, {a: 2}]')) == [('a', 1), ('a', 2)]
-    assert evaluate(C('!!pairs [{[x]: 1}]')) == [(['x'], 1)]
-    assert evaluate(C('{1: a, 1.0: b, true: c}')) == {1: 'c'}
+        raise AssertionError('O-merge accepted %r' % (bad,))
+    assert evaluate(M(('a', S('', 'null')), ('b', S('', 'null')), tag='set')) == {'a', 'b'}
+    assert evaluate(Q(M(('a', I(1))), M(('a', I(2))), tag='omap')) == [('a', 1), ('a', 2)]
+    assert evaluate(Q(M((Q(S('x')), I(1))), tag='pairs')) == [(['x'], 1)]
+    assert evaluate(M((I(1), S('a')), (S('1.0', 'float'), S('b')), (S('true', 'bool'), S('c')))) == {1: 'c'}
